@@ -214,6 +214,10 @@ func checkC04(P *Prog, r *Result) {
 	// the default that replaces an absent value is a copy of the schema's: a destination that shares the schema's slice
 	// changes what later executions get as their default (C19's rule)
 	shareRule(P, r, checkC19, "C19/default-not-aliased", nil, "C04/default-is-copied", 1)
+	// the decision is taken at all: a node that returns without an issue, without skipping as optional and without
+	// visiting its children (a struct that returns on an empty record instead of reading its fields from an empty
+	// provider) never asks whether its required fields are present (C01's rule)
+	shareRule(P, r, checkC01, "C01/no-silent-exit", nil, "C04/absent-decision-reached", 10)
 }
 
 func (P *Prog) checkZeroBinding(r *Result, sites []*ssa.Function) {
